@@ -139,7 +139,8 @@ func (x *Explorer) Run() {
 					skip = true
 					rr.Inconclusive = appendUniq(rr.Inconclusive, "time budget exhausted")
 				}
-				if x.stopOnFail && len(rr.Failures) > 0 {
+				if x.stopOnFail && len(rr.Failures) >= 3 {
+					// counterexamples found: no need to exhaust the (possibly exploding) rest of this root
 					skip = true
 				}
 				wantW := len(rr.Witnesses) < x.maxWitnessPerRoot
